@@ -115,6 +115,8 @@ type c27Fake struct {
 	seq    *int
 	seqMu  *sync.Mutex
 	closed chan struct{}
+	static *c27Step      // concurrent stream: every request is answered by this step
+	gate   chan struct{} // concurrent stream: replies are held until the gate opens
 }
 
 func (b *c27Fake) topicIndex(w c27WTopic) int {
@@ -182,6 +184,9 @@ func (b *c27Fake) conn(c net.Conn) {
 		if n < len(b.cs.Backends[b.idx].Script) {
 			step = b.cs.Backends[b.idx].Script[n]
 		}
+		if b.static != nil {
+			step = *b.static
+		}
 		rc := c27Recv{seq: seq, sub: sub, kind: step.Kind}
 		if step.Kind == "reply" {
 			for _, s := range sub {
@@ -208,6 +213,9 @@ func (b *c27Fake) conn(c net.Conn) {
 		}
 		b.recv = append(b.recv, rc)
 		b.mu.Unlock()
+		if b.gate != nil {
+			<-b.gate
+		}
 		switch step.Kind {
 		case "fail_after":
 			return
@@ -286,6 +294,81 @@ func (cs c27Case) ident(w c27WTopic) string {
 	return w.Name
 }
 
+// c27Send encodes the request of cs, sends it through the real routing entry point of p
+// and returns the decoded merged response, flattened.
+func c27Send(ctx context.Context, p *proxy, cs c27Case, pool *connPool) ([]c27RPart, error) {
+	var merged []c27RPart
+	var out []byte
+	var err error
+	if cs.Fetch {
+		req := kmsg.NewPtrFetchRequest()
+		req.Version = cs.Version
+		req.MaxWaitMillis, req.MinBytes, req.MaxBytes = 10, 1, 1 << 20
+		for _, t := range cs.Topics {
+			rt := kmsg.NewFetchRequestTopic()
+			rt.Topic, rt.TopicID = t.Name, t.ID
+			for _, pp := range t.Parts {
+				rp := kmsg.NewFetchRequestTopicPartition()
+				rp.Partition, rp.PartitionMaxBytes = pp, 1<<20
+				rt.Partitions = append(rt.Partitions, rp)
+			}
+			req.Topics = append(req.Topics, rt)
+		}
+		payload := c27Payload(req, 42)
+		header, _, herr := protocol.ParseRequestHeader(payload)
+		if herr != nil {
+			return nil, fmt.Errorf("header: %v", herr)
+		}
+		out, err = p.handleFetchRouting(ctx, header, payload, pool)
+	} else {
+		req := kmsg.NewPtrProduceRequest()
+		req.Version = cs.Version
+		req.Acks, req.TimeoutMillis = 1, 1000
+		for ti, t := range cs.Topics {
+			rt := kmsg.NewProduceRequestTopic()
+			rt.Topic = t.Name
+			for _, pp := range t.Parts {
+				rp := kmsg.NewProduceRequestTopicPartition()
+				rp.Partition = pp
+				rp.Records = []byte{byte(ti), byte(pp), 1, 2, 3}
+				rt.Partitions = append(rt.Partitions, rp)
+			}
+			req.Topics = append(req.Topics, rt)
+		}
+		payload := c27Payload(req, 42)
+		header, _, herr := protocol.ParseRequestHeader(payload)
+		if herr != nil {
+			return nil, fmt.Errorf("header: %v", herr)
+		}
+		out, err = p.handleProduceRouting(ctx, header, payload, pool)
+	}
+	if err != nil {
+		return nil, fmt.Errorf("routing returned error: %v", err)
+	}
+	if cs.Fetch {
+		fr, perr := parseFetchResponse(out, cs.Version)
+		if perr != nil {
+			return nil, fmt.Errorf("merged fetch response does not decode: %v", perr)
+		}
+		for _, t := range fr.Topics {
+			for _, pp := range t.Partitions {
+				merged = append(merged, c27RPart{Topic: c27WTopic{Name: t.Topic, ID: t.TopicID}, P: pp.Partition, Code: pp.ErrorCode})
+			}
+		}
+	} else {
+		pr, perr := parseProduceResponse(out, cs.Version)
+		if perr != nil {
+			return nil, fmt.Errorf("merged produce response does not decode: %v", perr)
+		}
+		for _, t := range pr.Topics {
+			for _, pp := range t.Partitions {
+				merged = append(merged, c27RPart{Topic: c27WTopic{Name: t.Topic}, P: pp.Partition, Code: pp.ErrorCode})
+			}
+		}
+	}
+	return merged, nil
+}
+
 func c27Run(cs c27Case) c27Result {
 	res := c27Result{tags: map[string]bool{}}
 	setFail := func(oracle, key, what string) {
@@ -350,79 +433,12 @@ func c27Run(cs c27Case) c27Result {
 	pool := newConnPool(2 * time.Second)
 	defer pool.Close()
 
-	var out []byte
-	var err error
-	if cs.Fetch {
-		req := kmsg.NewPtrFetchRequest()
-		req.Version = cs.Version
-		req.MaxWaitMillis, req.MinBytes, req.MaxBytes = 10, 1, 1 << 20
-		for _, t := range cs.Topics {
-			rt := kmsg.NewFetchRequestTopic()
-			rt.Topic, rt.TopicID = t.Name, t.ID
-			for _, pp := range t.Parts {
-				rp := kmsg.NewFetchRequestTopicPartition()
-				rp.Partition, rp.PartitionMaxBytes = pp, 1<<20
-				rt.Partitions = append(rt.Partitions, rp)
-			}
-			req.Topics = append(req.Topics, rt)
-		}
-		payload := c27Payload(req, 42)
-		header, _, herr := protocol.ParseRequestHeader(payload)
-		if herr != nil {
-			setFail("harness", "harness", "header: "+herr.Error())
-			return res
-		}
-		out, err = p.handleFetchRouting(ctx, header, payload, pool)
-	} else {
-		req := kmsg.NewPtrProduceRequest()
-		req.Version = cs.Version
-		req.Acks, req.TimeoutMillis = 1, 1000
-		for ti, t := range cs.Topics {
-			rt := kmsg.NewProduceRequestTopic()
-			rt.Topic = t.Name
-			for _, pp := range t.Parts {
-				rp := kmsg.NewProduceRequestTopicPartition()
-				rp.Partition = pp
-				rp.Records = []byte{byte(ti), byte(pp), 1, 2, 3}
-				rt.Partitions = append(rt.Partitions, rp)
-			}
-			req.Topics = append(req.Topics, rt)
-		}
-		payload := c27Payload(req, 42)
-		header, _, herr := protocol.ParseRequestHeader(payload)
-		if herr != nil {
-			setFail("harness", "harness", "header: "+herr.Error())
-			return res
-		}
-		out, err = p.handleProduceRouting(ctx, header, payload, pool)
-	}
-	if err != nil {
-		setFail("harness", "harness", "routing returned error: "+err.Error())
+	merged, herr := c27Send(ctx, p, cs, pool)
+	if herr != nil {
+		setFail("harness", "harness", herr.Error())
 		return res
 	}
-	if cs.Fetch {
-		fr, perr := parseFetchResponse(out, cs.Version)
-		if perr != nil {
-			setFail("harness", "harness", "merged fetch response does not decode: "+perr.Error())
-			return res
-		}
-		for _, t := range fr.Topics {
-			for _, pp := range t.Partitions {
-				res.merged = append(res.merged, c27RPart{Topic: c27WTopic{Name: t.Topic, ID: t.TopicID}, P: pp.Partition, Code: pp.ErrorCode})
-			}
-		}
-	} else {
-		pr, perr := parseProduceResponse(out, cs.Version)
-		if perr != nil {
-			setFail("harness", "harness", "merged produce response does not decode: "+perr.Error())
-			return res
-		}
-		for _, t := range pr.Topics {
-			for _, pp := range t.Partitions {
-				res.merged = append(res.merged, c27RPart{Topic: c27WTopic{Name: t.Topic}, P: pp.Partition, Code: pp.ErrorCode})
-			}
-		}
-	}
+	res.merged = merged
 	for _, f := range fakes {
 		f.mu.Lock()
 		res.recv = append(res.recv, append([]c27Recv(nil), f.recv...))
@@ -651,6 +667,286 @@ func c27Gen(r *vRand, omitting bool) c27Case {
 	return cs
 }
 
+
+// ---------------- concurrent stream ----------------
+// Several produce (or fetch) requests over overlapping topics but different partitions are
+// sent through ONE proxy at the same time (own connPool each, like separate client
+// connections).  The fake backends hold every reply until all requests have a sub-request
+// in flight, so the requests overlap.  To keep the expected replies independent of the
+// interleaving, every backend answers by content only (a fixed code per topic-partition),
+// all backends are up, every partition has an owner, and owners are at most nb-1 backends
+// (so the round-robin fallback always finds a free backend).  Each reply is judged against
+// its own request; the same requests are then sent one at a time as reference.
+type c27Group struct {
+	Fetch    bool         `json:"fetch"`
+	Version  int16        `json:"version"`
+	NB       int          `json:"backends"`
+	Universe []c27Topic   `json:"universe"` // topics with all their partitions
+	Codes    []c27Code    `json:"codes,omitempty"`
+	Routes   []c27Route   `json:"routes"`
+	RR       uint32       `json:"rr"`
+	Retries  int          `json:"retries"`
+	Reqs     [][]c27Topic `json:"reqs"`
+}
+
+func (g c27Group) univ() c27Case {
+	cs := c27Case{Fetch: g.Fetch, Version: g.Version, Topics: g.Universe, RR: g.RR, Retries: g.Retries, Routes: g.Routes}
+	for i := 0; i < g.NB; i++ {
+		cs.Backends = append(cs.Backends, c27Backend{})
+		cs.Addrs = append(cs.Addrs, c27Addr{ID: fmt.Sprintf("%d", i+1), B: i})
+	}
+	return cs
+}
+
+func (g c27Group) code(cs c27Case, w c27WTopic, p int32) int16 {
+	for ti, t := range g.Universe {
+		if (cs.byID() && t.ID == w.ID) || (!cs.byID() && t.Name == w.Name) {
+			for _, c := range g.Codes {
+				if c.T == ti && c.P == p {
+					return c.Code
+				}
+			}
+		}
+	}
+	return 0
+}
+
+type c27GroupRun struct {
+	merged [][]c27RPart
+	errs   []error
+	sends  map[string]int // ident/partition -> sub-requests containing it, over all backends
+}
+
+func c27ExecGroup(g c27Group, concurrent bool) c27GroupRun {
+	univ := g.univ()
+	run := c27GroupRun{merged: make([][]c27RPart, len(g.Reqs)), errs: make([]error, len(g.Reqs)), sends: map[string]int{}}
+	seq := 0
+	var seqMu sync.Mutex
+	static := &c27Step{Kind: "reply", Codes: g.Codes}
+	var gate chan struct{}
+	if concurrent {
+		gate = make(chan struct{})
+	}
+	var fakes []*c27Fake
+	var addrs []string
+	for i := 0; i < g.NB; i++ {
+		ln, err := net.Listen("tcp", "127.0.0.1:0")
+		if err != nil {
+			for k := range run.errs {
+				run.errs[k] = err
+			}
+			return run
+		}
+		f := &c27Fake{idx: i, cs: &univ, ln: ln, addr: ln.Addr().String(), seq: &seq, seqMu: &seqMu, static: static, gate: gate}
+		fakes, addrs = append(fakes, f), append(addrs, f.addr)
+		go f.serve()
+	}
+	defer func() {
+		for _, f := range fakes {
+			f.ln.Close()
+		}
+	}()
+	p := &proxy{backends: addrs, logger: slog.New(slog.NewTextHandler(io.Discard, nil)), dialTimeout: 2 * time.Second,
+		backendRetries: g.Retries, backendBackoff: 0, rr: g.RR,
+		brokerAddrs: map[string]string{}, topicNames: map[[16]byte]string{}}
+	p.setReady(true)
+	for i, a := range addrs {
+		p.brokerAddrs[fmt.Sprintf("%d", i+1)] = a
+	}
+	var routes []metadata.PartitionRoute
+	for _, r := range g.Routes {
+		routes = append(routes, metadata.PartitionRoute{Topic: g.Universe[r.T].Name, Partition: r.P, BrokerID: r.Broker})
+	}
+	p.router = metadata.VerifNewPartitionRouter(routes)
+	for _, t := range g.Universe {
+		if univ.byID() {
+			p.topicNames[t.ID] = t.Name
+		}
+	}
+	ctx, cancel := context.WithTimeout(context.Background(), 30*time.Second)
+	defer cancel()
+	one := func(i int) {
+		cs := univ
+		cs.Topics = g.Reqs[i]
+		pool := newConnPool(2 * time.Second)
+		defer pool.Close()
+		run.merged[i], run.errs[i] = c27Send(ctx, p, cs, pool)
+	}
+	received := func() int {
+		n := 0
+		for _, f := range fakes {
+			f.mu.Lock()
+			n += len(f.recv)
+			f.mu.Unlock()
+		}
+		return n
+	}
+	if concurrent {
+		var wg sync.WaitGroup
+		for i := range g.Reqs {
+			i := i
+			wg.Add(1)
+			go func() { defer wg.Done(); one(i) }()
+		}
+		// open the gate once every request has a sub-request parked at a backend (count
+		// stable for 20ms), or after 2s (requests coalesced by a changed proxy never arrive)
+		deadline := time.Now().Add(2 * time.Second)
+		last, stableSince := -1, time.Now()
+		for time.Now().Before(deadline) {
+			n := received()
+			if n != last {
+				last, stableSince = n, time.Now()
+			}
+			if n >= len(g.Reqs) && time.Since(stableSince) >= 20*time.Millisecond {
+				break
+			}
+			time.Sleep(2 * time.Millisecond)
+		}
+		close(gate)
+		wg.Wait()
+	} else {
+		for i := range g.Reqs {
+			one(i)
+		}
+	}
+	for _, f := range fakes {
+		f.mu.Lock()
+		for _, rc := range f.recv {
+			for _, sb := range rc.sub {
+				for _, pp := range sb.Parts {
+					run.sends[fmt.Sprintf("%s/%d", univ.ident(sb.Topic), pp)]++
+				}
+			}
+		}
+		f.mu.Unlock()
+	}
+	return run
+}
+
+func c27EntryList(cs c27Case, m []c27RPart) []string {
+	var l []string
+	for _, e := range m {
+		l = append(l, fmt.Sprintf("%s/%d=%d", cs.ident(e.Topic), e.P, e.Code))
+	}
+	sort.Strings(l)
+	return l
+}
+
+// c27JudgeGroup: first failure (oracle, key, what) of the concurrent run, "" if none.
+func c27JudgeGroup(g c27Group) (string, string, string) {
+	univ := g.univ()
+	conc := c27ExecGroup(g, true)
+	ref := c27ExecGroup(g, false)
+	containing := map[string]int{}
+	for i, req := range g.Reqs {
+		if conc.errs[i] != nil {
+			return "harness", "harness-error", fmt.Sprintf("request %d: %v", i, conc.errs[i])
+		}
+		if ref.errs[i] != nil {
+			return "harness", "harness-error", fmt.Sprintf("reference request %d: %v", i, ref.errs[i])
+		}
+		want := map[string]int{}
+		for _, t := range req {
+			w := c27WTopic{Name: t.Name, ID: t.ID}
+			for _, pp := range t.Parts {
+				k := fmt.Sprintf("%s/%d", univ.ident(w), pp)
+				want[k]++
+				containing[k]++
+			}
+		}
+		got := map[string]int{}
+		for _, e := range conc.merged[i] {
+			k := fmt.Sprintf("%s/%d", univ.ident(e.Topic), e.P)
+			got[k]++
+			if e.Code == 0 && g.code(univ, e.Topic, e.P) != 0 {
+				return "success_sound", "concurrent-success-without-backend-success", fmt.Sprintf("request %d of %d issued concurrently: %s is reported successful but every backend answers code %d for it", i, len(g.Reqs), k, g.code(univ, e.Topic, e.P))
+			}
+		}
+		for k := range want {
+			if got[k] == 0 {
+				return "exactly_once", "concurrent-missing-entry", fmt.Sprintf("request %d of %d issued concurrently: requested %s has no entry in its merged response %v", i, len(g.Reqs), k, c27EntryList(univ, conc.merged[i]))
+			}
+			if got[k] > 1 {
+				return "exactly_once", "concurrent-duplicate-entry", fmt.Sprintf("request %d of %d issued concurrently: requested %s has %d entries", i, len(g.Reqs), k, got[k])
+			}
+		}
+		for k := range got {
+			if want[k] == 0 {
+				return "exactly_once", "concurrent-unrequested-entry", fmt.Sprintf("request %d of %d issued concurrently: its merged response has an entry for %s which it did not request (requested %v)", i, len(g.Reqs), k, want)
+			}
+		}
+		a, b := strings.Join(c27EntryList(univ, conc.merged[i]), " "), strings.Join(c27EntryList(univ, ref.merged[i]), " ")
+		if a != b {
+			return "concurrent", "concurrent-reply-differs-from-sequential", fmt.Sprintf("request %d of %d: merged response while other requests were in flight [%s], alone [%s]", i, len(g.Reqs), a, b)
+		}
+	}
+	if !g.Fetch {
+		// no duplicate writes: a partition is sent once per request containing it (three
+		// times when every backend rejects it as NOT_LEADER: the retries)
+		for ti, t := range g.Universe {
+			for _, pp := range t.Parts {
+				w := c27WTopic{Name: t.Name, ID: t.ID}
+				k := fmt.Sprintf("%s/%d", univ.ident(w), pp)
+				per := 1
+				if g.code(univ, w, pp) == protocol.NOT_LEADER_OR_FOLLOWER {
+					per = 3
+				}
+				_ = ti
+				if conc.sends[k] > per*containing[k] {
+					return "resend_only_not_leader", "concurrent-extra-send", fmt.Sprintf("produce partition %s was sent %d times for %d concurrent requests containing it (at most %d each)", k, conc.sends[k], containing[k], per)
+				}
+			}
+		}
+	}
+	return "", "", ""
+}
+
+func c27GenGroup(r *vRand) c27Group {
+	g := c27Group{Fetch: r.Bool(), NB: r.Range(2, 3), RR: uint32(r.Intn(6)), Retries: r.Range(1, 2)}
+	if g.Fetch {
+		g.Version = []int16{11, 12, 13, 13}[r.Intn(4)]
+	} else {
+		g.Version = int16(r.Range(3, 9))
+	}
+	names := []string{"orders", "events", "a"}
+	nt := r.Range(1, 3)
+	for i := 0; i < nt; i++ {
+		t := c27Topic{Name: names[i], Parts: []int32{0, 1, 2, 3}}
+		if g.Fetch && g.Version >= 13 {
+			t.ID = [16]byte{byte(i + 1), 9}
+			t.Resolvable = true
+		}
+		g.Universe = append(g.Universe, t)
+		for _, pp := range t.Parts {
+			g.Routes = append(g.Routes, c27Route{T: i, P: pp, Broker: fmt.Sprintf("%d", 1+r.Intn(g.NB-1))})
+			if r.Chance(30) {
+				g.Codes = append(g.Codes, c27Code{T: i, P: pp, Code: []int16{6, 6, 3, 1}[r.Intn(4)]})
+			}
+		}
+	}
+	nr := r.Range(2, 4)
+	for k := 0; k < nr; k++ {
+		var req []c27Topic
+		for _, t := range g.Universe {
+			if len(req) > 0 && r.Chance(25) {
+				continue
+			}
+			q := c27Topic{Name: t.Name, ID: t.ID, Resolvable: t.Resolvable}
+			for _, pp := range t.Parts {
+				if r.Chance(45) {
+					q.Parts = append(q.Parts, pp)
+				}
+			}
+			if len(q.Parts) == 0 {
+				q.Parts = []int32{t.Parts[r.Intn(len(t.Parts))]}
+			}
+			req = append(req, q)
+		}
+		g.Reqs = append(g.Reqs, req)
+	}
+	return g
+}
+
 // ---------------- Coq emission ----------------
 func c27CoqTopic(w c27WTopic) string {
 	return fmt.Sprintf("mkTopic %s %s", cqStr(w.Name), cqBytes(w.ID[:]))
@@ -815,7 +1111,7 @@ func c27Shrink(cs c27Case, key string) c27Case {
 }
 
 func TestVerifC27(t *testing.T) {
-	rep := vNewReport("C27", "generated produce (v3-v9, acks=1) and fetch (v11, v12 by name; v13 by topic id, resolvable or not) requests with 1-3 topics x 1-3 distinct partitions through the real handleProduceRouting / handleFetchRouting with a static PartitionRouter (routes to known, unknown and unmapped broker ids or none), 1-3 fake TCP backends (down, or scripted per received request: reply with per-partition codes incl. NOT_LEADER_OR_FOLLOWER, close after reading, undecodable reply), round-robin counter 0-5, backendRetries 1-2; a separate stream has replies that omit partitions (reported, not judged); a case is non-trivial when more than one sub-request was sent or a backend failed / rejected; distinct = distinct canonical case")
+	rep := vNewReport("C27", "generated produce (v3-v9, acks=1) and fetch (v11, v12 by name; v13 by topic id, resolvable or not) requests with 1-3 topics x 1-3 distinct partitions through the real handleProduceRouting / handleFetchRouting with a static PartitionRouter (routes to known, unknown and unmapped broker ids or none), 1-3 fake TCP backends (down, or scripted per received request: reply with per-partition codes incl. NOT_LEADER_OR_FOLLOWER, close after reading, undecodable reply), round-robin counter 0-5, backendRetries 1-2; a separate stream has replies that omit partitions (reported, not judged); a case is non-trivial when more than one sub-request was sent or a backend failed / rejected; plus a concurrent stream (groups of 2-4 overlapping requests through one proxy, replies gated at the backends); distinct = distinct canonical case")
 	var coq, jsons []string
 	lostCases, omitCases := 0, 0
 	runOne := func(cs c27Case) {
@@ -856,12 +1152,51 @@ func TestVerifC27(t *testing.T) {
 			jsons = append(jsons, string(canon))
 		}
 	}
-	if rc := vReplayCase(); rc != nil {
-		var cs c27Case
-		if err := json.Unmarshal(rc, &cs); err != nil {
-			t.Fatalf("bad replay: %v", err)
+	runGroup := func(g c27Group) {
+		canon, _ := json.Marshal(g)
+		rep.Count(string(canon), true)
+		rep.Hist("concurrent-group")
+		oracle, key, what := c27JudgeGroup(g)
+		if what == "" {
+			return
 		}
-		runOne(cs)
+		if oracle == "harness" {
+			rep.Fail(oracle, key, what, g)
+			return
+		}
+		shr := g
+		shr.Reqs = vShrink(g.Reqs, func(rs [][]c27Topic) bool {
+			if len(rs) < 2 {
+				return false
+			}
+			c := g
+			c.Reqs = rs
+			_, k2, w2 := c27JudgeGroup(c)
+			return w2 != "" && k2 == key
+		})
+		if o2, k2, w2 := c27JudgeGroup(shr); w2 != "" && k2 == key {
+			rep.Fail(o2, k2, w2, shr)
+		} else {
+			rep.Fail(oracle, key, what, g)
+		}
+	}
+	if rc := vReplayCase(); rc != nil {
+		var probe struct {
+			Reqs []json.RawMessage `json:"reqs"`
+		}
+		if json.Unmarshal(rc, &probe) == nil && len(probe.Reqs) > 0 {
+			var g c27Group
+			if err := json.Unmarshal(rc, &g); err != nil {
+				t.Fatalf("bad replay: %v", err)
+			}
+			runGroup(g)
+		} else {
+			var cs c27Case
+			if err := json.Unmarshal(rc, &cs); err != nil {
+				t.Fatalf("bad replay: %v", err)
+			}
+			runOne(cs)
+		}
 	} else {
 		nl := protocol.NOT_LEADER_OR_FOLLOWER
 		corpus := []c27Case{
@@ -893,6 +1228,25 @@ func TestVerifC27(t *testing.T) {
 		n := vN(260, 3000)
 		for i := 0; i < n; i++ {
 			runOne(c27Gen(r.Fork(), i%8 == 7))
+		}
+		// concurrent stream: same topics, different partitions, at the same time
+		runGroup(c27Group{Fetch: true, Version: 13, NB: 2, Retries: 1,
+			Universe: []c27Topic{{Name: "orders", ID: [16]byte{1}, Parts: []int32{0, 1, 2, 3}, Resolvable: true}},
+			Codes:    []c27Code{{0, 2, nl}, {0, 3, 3}},
+			Routes:   []c27Route{{0, 0, "1"}, {0, 1, "1"}, {0, 2, "1"}, {0, 3, "1"}},
+			Reqs: [][]c27Topic{{{Name: "orders", ID: [16]byte{1}, Parts: []int32{0}, Resolvable: true}},
+				{{Name: "orders", ID: [16]byte{1}, Parts: []int32{1, 2}, Resolvable: true}},
+				{{Name: "orders", ID: [16]byte{1}, Parts: []int32{3}, Resolvable: true}}}})
+		runGroup(c27Group{Version: 7, NB: 3, Retries: 1,
+			Universe: []c27Topic{{Name: "orders", Parts: []int32{0, 1, 2, 3}}, {Name: "a", Parts: []int32{0, 1, 2, 3}}},
+			Codes:    []c27Code{{0, 1, nl}},
+			Routes:   []c27Route{{0, 0, "1"}, {0, 1, "2"}, {0, 2, "1"}, {0, 3, "2"}, {1, 0, "1"}, {1, 1, "1"}, {1, 2, "2"}, {1, 3, "2"}},
+			Reqs: [][]c27Topic{{{Name: "orders", Parts: []int32{0, 1}}, {Name: "a", Parts: []int32{0}}},
+				{{Name: "orders", Parts: []int32{2}}, {Name: "a", Parts: []int32{1, 2}}},
+				{{Name: "orders", Parts: []int32{3, 1}}}}})
+		ng := vN(40, 400)
+		for i := 0; i < ng; i++ {
+			runGroup(c27GenGroup(r.Fork()))
 		}
 	}
 	rep.Notes = append(rep.Notes, fmt.Sprintf("stream 'replies omit partitions' (outside the theorems' hypothesis, reported only): %d cases, in %d of them a requested partition has no entry in the merged response", omitCases, lostCases))
